@@ -64,10 +64,7 @@ func runScenario(s *Scenario) (fail string, forced bool) {
 	}()
 	w := newWorld()
 	st := w.st
-	var cfg params.YouParams
-	for _, p := range params.Versions {
-		cfg = p.DeepCopy()
-	}
+	cfg := params.Versions[params.YouV5].DeepCopy()
 	cfg.MinStakes = map[params.ValidatorRole]uint64{1: s.Min, 2: s.Min, 3: s.Min}
 	cfg.MinDelegationTokens = new(big.Int).Set(unit)
 	for d := 0; d < ND; d++ {
